@@ -60,6 +60,7 @@ type Contract struct {
 	Expand   []string // callees (display-name suffixes) whose body is expanded in this function although they have a contract
 	Trusted  bool
 	Models   map[string]bool // library components replaced by a deterministic-function model in this function (e.g. md4)
+	ThoroughOnly bool // verified in the thorough tier only (deeper instances of a lemma family)
 	Deterministic bool // calls with equal scalar/string arguments return equal results (assumed, listed in the evidence)
 	Schema   string
 	File     string
@@ -79,7 +80,7 @@ type Contract struct {
 	Impls    []string        // keys of the implementing methods
 }
 
-var clauseHead = regexp.MustCompile(`^(deterministic|model|extend|unroll-in|prefer-int|expand|abstract|keys|check|mode|ghost|requires|ensures|modifies|loop|bound|iface|maynil|inline|trusted|panics-if|nosafety|maxpaths|alias|decreases)\b(.*)$`)
+var clauseHead = regexp.MustCompile(`^(deterministic|thorough-only|model|extend|unroll-in|prefer-int|expand|abstract|keys|check|mode|ghost|requires|ensures|modifies|loop|bound|iface|maynil|inline|trusted|panics-if|nosafety|maxpaths|alias|decreases)\b(.*)$`)
 var tagRe = regexp.MustCompile(`^\s*\[([^\]]+)\]\s*(.*)$`)
 
 // ParseContractFile parses the //@ lines of one file. pkgPath is the import path of its package.
@@ -367,6 +368,8 @@ func (c *Contract) addClause(head, rest, where string) error {
 		c.Trusted = true
 	case "deterministic":
 		c.Deterministic = true
+	case "thorough-only":
+		c.ThoroughOnly = true
 	case "model":
 		if c.Models == nil {
 			c.Models = map[string]bool{}
